@@ -30,31 +30,44 @@ def _self_assigns(f):
 
 def rule_perm(ctx):
     ctx.rule("C18.perm", "T6", "one permutation (argsort of the projection) is applied to projection, x and y; x-sorted view from the permuted x")
+    from ..flow import straight_env
     f = ctx.func(BM, "BMCI.__init__")
     yp, xp = f.params[1], f.params[2]
-    S = _self_assigns(f)
-    flow = Flow(f)
+    # closed forms of the attributes, keeping mean / axis / covariance symbolic
+    env = straight_env(f.node, stop=("self.y_mean", "self.pc1", "self.s_o", "self.pc1_e"))
+    proj = env.get("self.pc1_proj")
+    if proj is None:
+        raise AnalysisError("BMCI.__init__: self.pc1_proj is not assigned on the straight path")
+    node = [st for st in f.body if isinstance(st, ast.Assign) and norm(st.targets[0]) == "self.pc1_proj"][-1]
+    # sorted projection = E[argsort(E)]
     perm = None
-    for st in flow.stmts:
-        if isinstance(st, ast.Assign) and isinstance(st.targets[0], ast.Name) and isinstance(st.value, ast.Call) \
-                and (dotted(st.value.func) or "").split(".")[-1] == "argsort" and norm(st.value.args[0]) == "self.pc1_proj":
-            perm = st
+    if isinstance(proj, ast.Subscript):
+        k = proj.slice
+        from ..canon import canon
+        kc = canon(k)
+        if isinstance(kc, ast.Call) and (dotted(kc.func) or "").split(".")[-1] == "argsort" and kc.args and not kc.keywords \
+                and norm(kc.args[0]) == norm(proj.value):
+            perm = k
     if perm is None:
-        raise AnalysisError("BMCI.__init__: argsort of the projection not found")
-    pi = perm.targets[0].id
-    def last(attr):
-        return S.get(attr, [None])[-1]
-    p_ok = last("pc1_proj") is not None and norm(last("pc1_proj").value) == "self.pc1_proj[%s]" % pi and last("pc1_proj").lineno > perm.lineno
-    ctx.ob("BMCI.__init__.perm[pc1_proj]", p_ok, "self.pc1_proj = %s" % (norm(last("pc1_proj").value) if last("pc1_proj") else None),
-           "re-bound to self.pc1_proj[pi] with pi = argsort(self.pc1_proj) (ascending: searchsorted needs it)", node=last("pc1_proj") or perm, func=f)
-    x_ok = last("x") is not None and norm(last("x").value) == "%s[%s]" % (xp, pi)
-    ctx.ob("BMCI.__init__.perm[x]", x_ok, "self.x = %s" % (norm(last("x").value) if last("x") else None), "x[pi] - the same permutation", node=last("x") or perm, func=f)
-    y_ok = last("y") is not None and norm(last("y").value).replace(" ", "") in ("%s[%s,:]" % (yp, pi), "%s[%s]" % (yp, pi))
-    ctx.ob("BMCI.__init__.perm[y]", y_ok, "self.y = %s" % (norm(last("y").value) if last("y") else None), "y[pi, :] - the same permutation of the rows", node=last("y") or perm, func=f)
-    xs = last("x_sorted_inds")
-    xs_ok = xs is not None and norm(xs.value) == "np.argsort(self.x)" and last("x") is not None and xs.lineno > last("x").lineno
-    ctx.ob("BMCI.__init__.x_sorted_inds", xs_ok, "self.x_sorted_inds = %s" % (norm(xs.value) if xs else None),
-           "argsort of the permuted self.x (computed after self.x was re-bound)", node=xs or perm, func=f)
+        # recognised wrong forms: sorted by something else / descending / not sorted at all
+        has_sort = any(isinstance(n_, ast.Call) and isinstance(n_.func, ast.Attribute) and n_.func.attr in ("argsort", "sort", "sorted") for n_ in ast.walk(proj))
+        if not has_sort and not calls_in(f.node, ("argsort",)):
+            raise AnalysisError("BMCI.__init__: argsort of the projection not found")
+        ctx.ob("BMCI.__init__.perm[pc1_proj]", False, "self.pc1_proj = %s" % norm(proj)[:120], "E[argsort(E)] for the projection E (ascending: searchsorted needs it)", node=node, func=f)
+        return
+    E = norm(proj.value)
+    P = norm(perm)
+    ctx.ob("BMCI.__init__.perm[pc1_proj]", True, "self.pc1_proj = E[argsort(E)], E = %s" % E[:80],
+           "re-bound to the projection permuted by pi = argsort(projection) (ascending: searchsorted needs it)", node=node, func=f)
+    xv, yv = env.get("self.x"), env.get("self.y")
+    x_ok = xv is not None and norm(xv) == "%s[%s]" % (xp, P)
+    ctx.ob("BMCI.__init__.perm[x]", x_ok, "self.x = %s" % (norm(xv)[:120] if xv is not None else None), "x[pi] - the same permutation", node=node, func=f)
+    y_ok = yv is not None and norm(yv).replace(" ", "") in (("%s[%s,:]" % (yp, P)).replace(" ", ""), ("%s[%s]" % (yp, P)).replace(" ", ""))
+    ctx.ob("BMCI.__init__.perm[y]", y_ok, "self.y = %s" % (norm(yv)[:120] if yv is not None else None), "y[pi, :] - the same permutation of the rows", node=node, func=f)
+    xs = env.get("self.x_sorted_inds")
+    xs_ok = xs is not None and xv is not None and norm(xs) == "np.argsort(%s)" % norm(xv)
+    ctx.ob("BMCI.__init__.x_sorted_inds", xs_ok, "self.x_sorted_inds = %s" % (norm(xs)[:120] if xs is not None else None),
+           "argsort of the permuted self.x (computed after self.x was re-bound)", node=node, func=f)
 
 
 def rule_window(ctx):
@@ -73,37 +86,48 @@ def rule_window(ctx):
     wn, vn = [norm(e) for e in eig.targets[0].elts]
     c = calls_in(eig.value, ("eig", "eigh"))[0]
     ok_e = norm(c.args[0]) in ("self.s_o", f.params[3])
-    srt = None
-    for st in flow.stmts:
-        if isinstance(st, ast.Assign) and isinstance(st.targets[0], ast.Name) and norm(st.value) == "np.argsort(%s)" % wn:
-            srt = st
-    if srt is None:
+    from ..flow import straight_env
+    env = straight_env(f.node, stop=(wn, vn, "self.y_mean", "self.s_o"))
+    e, v = env.get("self.pc1_e"), env.get("self.pc1")
+    if e is None or v is None:
+        raise AnalysisError("BMCI.__init__: self.pc1_e / self.pc1 not assigned on the straight path")
+    e_txt = norm(e).replace(" ", "")
+    smallest = "np.argsort(%s)[0]" % wn
+    if "argsort" not in e_txt and "argmin" not in e_txt and "argmax" not in e_txt and "min(" not in e_txt:
         raise AnalysisError("BMCI.__init__: argsort of the eigenvalues not found")
-    inds = srt.targets[0].id
-    e = S.get("pc1_e", [None])[-1]
-    v = S.get("pc1", [None])[-1]
-    e_txt = norm(e.value).replace(" ", "") if e else None
-    ok_val = e_txt in ("1.0/%s[%s[0]]" % (wn, inds), "1/%s[%s[0]]" % (wn, inds))
-    ctx.ob("BMCI.__init__.eigenvalue", ok_e and ok_val, "self.pc1_e = %s from eig(%s), order = argsort" % (norm(e.value) if e else None, norm(c.args[0])),
-           "1 / (smallest eigenvalue of the given covariance): first entry of the ascending argsort", node=e or eig, func=f)
-    v_txt = norm(v.value).replace(" ", "") if v else None
-    ok_vec = v_txt == "%s[:,%s[0]]" % (vn, inds)
-    ctx.ob("BMCI.__init__.eigenvector", ok_vec, "self.pc1 = %s" % (norm(v.value) if v else None),
-           "the COLUMN of the eigenvector matrix with the same index as the eigenvalue (eig returns eigenvectors as columns)", node=v or eig, func=f)
-    pr = S.get("pc1_proj", [None])[0]
-    ok_pr = pr is not None and norm(pr.value).replace(" ", "") in ("np.dot(%s-self.y_mean,self.pc1)" % f.params[1], "np.dot((%s-self.y_mean),self.pc1)" % f.params[1])
+    ok_val = e_txt in ("1.0/%s[%s]" % (wn, smallest), "1/%s[%s]" % (wn, smallest), "1.0/%s[np.argmin(%s)]" % (wn, wn), "1/%s[np.argmin(%s)]" % (wn, wn))
+    enode = [st for st in f.body if isinstance(st, ast.Assign) and norm(st.targets[0]) == "self.pc1_e"][-1]
+    vnode = [st for st in f.body if isinstance(st, ast.Assign) and norm(st.targets[0]) == "self.pc1"][-1]
+    ctx.ob("BMCI.__init__.eigenvalue", ok_e and ok_val, "self.pc1_e = %s from eig(%s)" % (norm(e), norm(c.args[0])),
+           "1 / (smallest eigenvalue of the given covariance): first entry of the ascending argsort", node=enode, func=f)
+    v_txt = norm(v).replace(" ", "")
+    ok_vec = v_txt in ("%s[:,%s]" % (vn, smallest), "%s[:,np.argmin(%s)]" % (vn, wn))
+    ctx.ob("BMCI.__init__.eigenvector", ok_vec, "self.pc1 = %s" % norm(v),
+           "the COLUMN of the eigenvector matrix with the same index as the eigenvalue (eig returns eigenvectors as columns)", node=vnode, func=f)
+    env2 = straight_env(f.node, stop=("self.y_mean", "self.pc1", "self.s_o", "self.pc1_e"))
+    pr = env2.get("self.pc1_proj")
+    base = pr.value if isinstance(pr, ast.Subscript) else pr
+    ok_pr = base is not None and norm(base).replace(" ", "") in ("np.dot(%s-self.y_mean,self.pc1)" % f.params[1],)
     h = ctx.func(BM, "BMCI.__find_hits")
     hflow = Flow(h)
     yo, x2 = h.params[1], h.params[2]
-    A = {}
-    for st in hflow.stmts:
-        if isinstance(st, ast.Assign) and isinstance(st.targets[0], ast.Name):
-            A[st.targets[0].id] = st
-    yp = A.get("y_proj")
-    ok_o = yp is not None and norm(yp.value).replace(" ", "") in ("np.dot(self.pc1,(%s-self.y_mean).ravel())" % yo, "np.dot(self.pc1,%s-self.y_mean)" % yo,
-                                                                  "np.dot((%s-self.y_mean).ravel(),self.pc1)" % yo)
-    ctx.ob("BMCI.projection", ok_pr and ok_o, "database: %s ; observation: %s" % (norm(pr.value) if pr else None, norm(yp.value) if yp else None),
-           "both are dot(. - self.y_mean, self.pc1): same mean, same axis", node=yp or h.node, func=h)
+    ss = calls_in(h.node, "searchsorted")
+    if len(ss) != 1 or len(ss[0].args) < 2:
+        raise AnalysisError("__find_hits: expected one searchsorted(sorted, [s_l, s_u]) call")
+    bounds = hflow.resolve(ss[0].args[1], at=ss[0], depth=1)
+    if isinstance(bounds, ast.Call) and (dotted(bounds.func) or "").split(".")[-1] in ("array", "asarray") and bounds.args:
+        bounds = bounds.args[0]
+    if not (isinstance(bounds, (ast.List, ast.Tuple)) and len(bounds.elts) == 2):
+        raise AnalysisError("__find_hits: the searched bounds are not a pair [s_l, s_u]")
+    sl_e, su_e = [hflow.resolve(e_, at=ss[0], depth=4, stop=(yo, x2)) for e_ in bounds.elts]
+    dots = {norm(n_).replace(" ", "") for b_ in (sl_e, su_e) for n_ in ast.walk(b_) if isinstance(n_, ast.Call) and (dotted(n_.func) or "").split(".")[-1] == "dot"}
+    obs_forms = ("np.dot(self.pc1,(%s-self.y_mean).ravel())" % yo, "np.dot(self.pc1,%s-self.y_mean)" % yo, "np.dot((%s-self.y_mean).ravel(),self.pc1)" % yo,
+                 "np.dot(%s-self.y_mean,self.pc1)" % yo)
+    if not dots:
+        raise AnalysisError("__find_hits: projection of the observation not found in the bounds")
+    ok_o = len(dots) == 1 and any(d_ == o_ for d_ in dots for o_ in obs_forms)
+    ctx.ob("BMCI.projection", ok_pr and ok_o, "database: %s ; observation: %s" % (norm(base) if base is not None else None, sorted(dots)),
+           "both are dot(. - self.y_mean, self.pc1): same mean, same axis", node=ss[0], func=h)
     # half width
     X2, E = sp.symbols("x2 e", positive=True)
     Yp = sp.Symbol("yp", real=True)
@@ -114,37 +138,36 @@ def rule_window(ctx):
             return X2
         if t == "self.pc1_e":
             return E
-        if t == "y_proj":
+        if isinstance(n, ast.Call) and (dotted(n.func) or "").split(".")[-1] == "dot":
             return Yp
         if isinstance(n, ast.Constant):
             return sp.nsimplify(n.value)
         if isinstance(n, ast.BinOp):
             from ..alg import _binop
             return _binop(n.op, term(n.left), term(n.right))
+        if isinstance(n, ast.UnaryOp) and isinstance(n.op, ast.USub):
+            return -term(n.operand)
         if isinstance(n, ast.Call) and dotted(n.func) in ("np.sqrt", "math.sqrt"):
             return sp.sqrt(term(n.args[0]))
         raise AnalysisError("__find_hits: unsupported expression %s" % t)
-    sl, su = A.get("s_l"), A.get("s_u")
-    if sl is None or su is None:
-        raise AnalysisError("__find_hits: s_l / s_u not found")
-    hl = sp.simplify(Yp - term(sl.value))
-    hu = sp.simplify(term(su.value) - Yp)
+    hl = sp.simplify(Yp - term(sl_e))
+    hu = sp.simplify(term(su_e) - Yp)
     # h^2 = c * x2 * lambda with lambda = 1/E
     cl = sp.simplify(hl ** 2 * E / X2)
     cu = sp.simplify(hu ** 2 * E / X2)
     ok_h = cl.is_number and cu.is_number and cl >= 1 and cu >= 1 and hl.is_positive and hu.is_positive
     ctx.ob("BMCI.__find_hits.halfwidth", bool(ok_h), "lower: y_proj - %s, upper: y_proj + %s; h^2 / (x2_max * lambda) = %s, %s" % (hl, hu, cl, cu),
-           "symmetric window with h^2 = c * x2_max * lambda_min, c >= 1: |u^T dy| <= sqrt(lambda * chi^2) for the eigenvector u", node=sl, func=h)
-    ss = calls_in(h.node, "searchsorted")
-    ok_s = bool(ss) and norm(ss[0].args[0]) == "self.pc1_proj" and norm(ss[0].args[1]).replace(" ", "") in ("np.array([s_l,s_u])", "[s_l,s_u]")
-    rets = [s for s in hflow.stmts if isinstance(s, ast.Return)]
-    ok_r = bool(rets) and norm(rets[0].value).replace(" ", "").startswith("(inds[0],inds[1]")
+           "symmetric window with h^2 = c * x2_max * lambda_min, c >= 1: |u^T dy| <= sqrt(lambda * chi^2) for the eigenvector u", node=ss[0], func=h)
+    ok_s = norm(ss[0].args[0]) == "self.pc1_proj"
+    rets = [s_ for s_ in hflow.stmts if isinstance(s_, ast.Return)]
     # the returned bounds are the searchsorted results themselves (i_u is an EXCLUSIVE bound and may equal n)
-    if ok_r and ss:
-        ds_ = hflow.defs("inds", rets[0])
-        ok_r = len(ds_) == 1 and isinstance(ds_[0], ast.Assign) and ds_[0].value is ss[0]
-    ctx.ob("BMCI.__find_hits.search", ok_s and ok_r, "searchsorted: %s; return %s" % (norm(ss[0]) if ss else None, norm(rets[0].value) if rets else None),
-           "(i_l, i_u) = searchsorted(sorted projections, [s_l, s_u])", node=ss[0] if ss else h.node, func=h)
+    ok_r = False
+    if len(rets) == 1 and isinstance(rets[0].value, ast.Tuple) and len(rets[0].value.elts) == 3:
+        S_ = norm(ss[0])
+        r0, r1, r2 = [norm(hflow.resolve(e_, at=rets[0], depth=2, stop=tuple(n_.id for n_ in ast.walk(ss[0]) if isinstance(n_, ast.Name)))) for e_ in rets[0].value.elts]
+        ok_r = r0 == "%s[0]" % S_ and r1 == "%s[1]" % S_ and r2 == "%s[1] - %s[0]" % (S_, S_)
+    ctx.ob("BMCI.__find_hits.search", ok_s and ok_r, "searchsorted: %s; return %s" % (norm(ss[0]), norm(rets[0].value) if rets else None),
+           "(i_l, i_u) = searchsorted(sorted projections, [s_l, s_u])", node=ss[0], func=h)
 
 
 class V:
@@ -196,28 +219,39 @@ def rule_moments(ctx):
     flow = Flow(f)
     x1, x2, w1, w2 = sp.symbols("x1 x2 w1 w2", positive=True)
     X, W = V([x1, x2]), V([w1, w2])
-    env = {"self.x[i_l:i_u]": X, "ws": W}
+    wc = [c_ for c_ in calls_in(f.node, "weights") if norm(c_.func) == "self.weights"]
+    wst = enclosing_stmt(wc[0]) if wc else None
+    if not (isinstance(wst, ast.Assign) and isinstance(wst.targets[0], ast.Tuple) and len(wst.targets[0].elts) == 3):
+        raise AnalysisError("predict: `i_l, i_u, ws = self.weights(...)` not found")
+    il, iu, wn = [norm(e_) for e_ in wst.targets[0].elts]
+    env = {"self.x[%s:%s]" % (il, iu): X, wn: W}
+    rets = [s_ for s_ in flow.stmts if isinstance(s_, ast.Return)]
+    if not rets or not isinstance(rets[-1].value, ast.Tuple) or len(rets[-1].value.elts) != 2:
+        raise AnalysisError("predict: does not return (means, standard deviations)")
+    mname, sname = [norm(e_) for e_ in rets[-1].value.elts]
     cdef = None
     mean_st = sig_st = None
     for st in flow.stmts:
-        if isinstance(st, ast.Assign) and isinstance(st.targets[0], ast.Name) and norm(st.value) in ("ws.sum()", "np.sum(ws)"):
+        if isinstance(st, ast.Assign) and isinstance(st.targets[0], ast.Name) and norm(st.value) in ("%s.sum()" % wn, "np.sum(%s)" % wn):
             cdef = st
-        if isinstance(st, ast.Assign) and isinstance(st.targets[0], ast.Subscript) and not (
-                isinstance(st.value, ast.Call) and (dotted(st.value.func) or "") in ("float", "np.float")) and norm(st.value) not in ("np.nan",):
-            if norm(st.targets[0].value) == "xs" and mean_st is None:
+        if isinstance(st, ast.Assign) and isinstance(st.targets[0], ast.Subscript) and not _is_nan(norm(st.value)):
+            if norm(st.targets[0].value) == mname and mean_st is None:
                 mean_st = st
-            elif norm(st.targets[0].value) == "sigmas" and sig_st is None:
+            elif norm(st.targets[0].value) == sname and sig_st is None:
                 sig_st = st
     if cdef is None or mean_st is None or sig_st is None:
         raise AnalysisError("predict: normalisation / mean / sigma assignments not found")
+    keep = (il, iu, wn, cdef.targets[0].id, mname, sname)
+    mean_val = flow.resolve(mean_st.value, at=mean_st, depth=3, stop=keep)
+    sig_val = flow.resolve(sig_st.value, at=sig_st, depth=3, stop=keep)
     env[cdef.targets[0].id] = w1 + w2
-    mean = _vec(ctx, mean_st.value, env)
+    mean = _vec(ctx, mean_val, env)
     want_mean = (x1 * w1 + x2 * w2) / (w1 + w2)
     v, info = is_zero(sp.simplify(mean - want_mean))
     ctx.ob("BMCI.predict.mean", v is True, "xs[i] = %s  ->  %s" % (norm(mean_st.value)[:80], sp.simplify(mean)), "sum(x_i w_i) / sum(w_i)",
            node=mean_st, func=f, witness=None if v else info)
     env[norm(mean_st.targets[0])] = mean
-    sig = _vec(ctx, sig_st.value, env)
+    sig = _vec(ctx, sig_val, env)
     want = sp.sqrt((w1 * (x1 - want_mean) ** 2 + w2 * (x2 - want_mean) ** 2) / (w1 + w2))
     v, info = is_zero(sp.simplify(sig ** 2 - want ** 2))
     ctx.ob("BMCI.predict.std", v is True and sig.func == sp.Pow or v is True, "sigmas[i] = %s" % norm(sig_st.value)[:100],
@@ -334,27 +368,44 @@ def rule_slice(ctx):
     for fname in ("cdf", "predict_quantiles"):
         f = ctx.func(BM, "BMCI." + fname)
         flow = Flow(f)
-        A = {}
+        wc = [c_ for c_ in calls_in(f.node, "weights") if norm(c_.func) == "self.weights"]
+        wst = enclosing_stmt(wc[0]) if wc else None
+        if not (isinstance(wst, ast.Assign) and isinstance(wst.targets[0], ast.Tuple) and len(wst.targets[0].elts) == 3):
+            raise AnalysisError("%s: `i_l, i_u, ws = self.weights(...)` not found" % fname)
+        il, iu, wn = [norm(e_) for e_ in wst.targets[0].elts]
+        wcall = norm(wc[0])
+        xsel, wsel = [], []
         for st in flow.stmts:
-            if isinstance(st, ast.Assign) and isinstance(st.targets[0], ast.Name):
-                A.setdefault(st.targets[0].id, []).append(st)
-        inds = A.get("inds", [])
+            if not isinstance(st, ast.Assign):
+                continue
+            for sub in [n_ for n_ in ast.walk(st.value) if isinstance(n_, ast.Subscript)]:
+                r_ = flow.resolve(sub, at=st, depth=6, stop=(il, iu))
+                if isinstance(r_, ast.Subscript):
+                    base = norm(r_.value).replace(" ", "")
+                    if base == "self.x[%s:%s]" % (il, iu):
+                        xsel.append((st, r_.slice))
+                    elif isinstance(r_.value, ast.Subscript) and isinstance(r_.value.slice, ast.Constant) and r_.value.slice.value == 2 \
+                            and isinstance(r_.value.value, ast.Call) and norm(r_.value.value.func) == "self.weights":
+                        wsel.append((st, r_.slice))
+        if len(xsel) != 1 or len(wsel) != 1:
+            raise AnalysisError("%s: expected one selection from self.x[i_l:i_u] and one from the weights (found %d / %d)" % (fname, len(xsel), len(wsel)))
+        kx, kw_ = xsel[0][1], wsel[0][1]
         ok = False
-        fact = [norm(s.value) for s in inds]
-        if len(inds) == 2:
-            m = calls_in(inds[0].value, "where")
-            if m:
+        fact = norm(kx)
+        # K = self.x_sorted_inds[np.where(MASK)] - i_l
+        if isinstance(kx, ast.BinOp) and isinstance(kx.op, ast.Sub) and norm(kx.right) == il and isinstance(kx.left, ast.Subscript) \
+                and norm(kx.left.value) == "self.x_sorted_inds":
+            m = calls_in(kx.left.slice, "where") if not (isinstance(kx.left.slice, ast.Call) and (dotted(kx.left.slice.func) or "").endswith("where")) else [kx.left.slice]
+            if m and len(m[0].args) == 1:
                 mask = m[0].args[0]
                 tt = {}
                 for k in range(4):
-                    tt[k] = bool(Interp({"i_l": 1, "i_u": 3, "self.x_sorted_inds": k}).ev(mask))
-                ok = tt == {0: False, 1: True, 2: True, 3: False} and norm(inds[1].value).replace(" ", "") == "self.x_sorted_inds[inds]-i_l"
-        ctx.ob("BMCI.%s.mask" % fname, ok, "inds = %s" % fact, "where(i_l <= k < i_u) over the x-sorted indices, then shifted by -i_l into the window", node=inds[0] if inds else f.node, func=f)
-        xs = A.get("xs", [None])[0]
-        ws = [s for s in A.get("ws", []) if isinstance(s.value, ast.Subscript)]
-        okx = xs is not None and norm(xs.value) == "self.x[i_l:i_u][inds]" and bool(ws) and norm(ws[0].value) == "ws[inds]"
-        ctx.ob("BMCI.%s.window_view" % fname, okx, "xs = %s; ws = %s" % (norm(xs.value) if xs else None, norm(ws[0].value) if ws else None),
-               "xs = self.x[i_l:i_u][inds] and ws = ws[inds]: both taken from the window with the shifted indices", node=xs or f.node, func=f)
+                    tt[k] = bool(Interp({il: 1, iu: 3, "self.x_sorted_inds": k}).ev(mask))
+                ok = tt == {0: False, 1: True, 2: True, 3: False}
+        ctx.ob("BMCI.%s.mask" % fname, ok, "index into the window = %s" % fact, "where(i_l <= k < i_u) over the x-sorted indices, then shifted by -i_l into the window", node=xsel[0][0], func=f)
+        okx = norm(kx) == norm(kw_)
+        ctx.ob("BMCI.%s.window_view" % fname, okx, "xs = self.x[%s:%s][K]; ws = weights[K']; K == K': %s" % (il, iu, okx),
+               "xs = self.x[i_l:i_u][inds] and ws = ws[inds]: both taken from the window with the shifted indices", node=xsel[0][0], func=f)
 
 
 def rule_nan(ctx):
@@ -380,11 +431,24 @@ def rule_nan(ctx):
     ctx.extra["api_names_resolved"] = len(info)
     # predict: else branch assigns NaN to both outputs
     p = ctx.func(BM, "BMCI.predict")
-    gi = [st for st in walk_no_nested(p.node) if isinstance(st, ast.If) and norm(st.test).replace(" ", "") in ("c>0.0", "c>0")]
+    from ..flow import arms
+    gi = []
+    vals = None
+    for st in walk_no_nested(p.node):
+        if isinstance(st, ast.If):
+            blk = parent(st)
+            sib = next((getattr(blk, fl_) for fl_ in ("body", "orelse") if any(x is st for x in getattr(blk, fl_, []))), None)
+            for cnd in ("c > 0.0", "c > 0", "0 < c", "0.0 < c"):
+                ab = arms(st, cnd, sib)
+                if ab is not None:
+                    gi.append((st, ab))
+                    break
     okp = False
     if gi:
-        vals = {norm(s.targets[0]): norm(s.value) for s in gi[0].orelse if isinstance(s, ast.Assign)}
+        zero_arm = gi[0][1][1]
+        vals = {norm(s.targets[0]): norm(s.value) for s in zero_arm if isinstance(s, ast.Assign)}
         okp = set(vals) == {"xs[i]", "sigmas[i]"} and all(_is_nan(v) for v in vals.values())
+    gi = [g_[0] for g_ in gi]
     ctx.ob("BMCI.predict.fallback", okp, "else-branch of the weight test: %s" % (vals if gi else None), "xs[i] and sigmas[i] become NaN when the total weight is 0 (sum of an empty window is 0.0: total)",
            node=gi[0] if gi else p.node, func=p)
     for fname in ("cdf", "predict_quantiles"):
